@@ -14,22 +14,22 @@ namespace Koda
 /-- **`CacheValidatorBase.__call__`, as written in the source, is `Cache.step … .sync`** -/
 theorem src_cache_sync (keq : PyVal → PyVal → Bool) (bare : Mode → PyVal → Out) (s : Store) (x : PyVal) :
     runCache keq bare s Src.cacheSync x = some (Cache.step keq bare s .sync x) := by
-  simp only [runCache, Src.cacheSync, Cache.step, CStmt.execL, CStmt.exec, CExp.eval, CEnv.set, CEnv.get]
+  simp only [runCache, Src.cacheSync, Cache.step, KStmt.execL, KStmt.exec, KExp.eval, KEnv.set, KEnv.get]
   cases hg : Store.get keq s x with
-  | some r => simp [ctruthy, CStmt.execL, CStmt.exec, CExp.eval, CEnv.get]
+  | some r => simp [ktruthy, KStmt.execL, KStmt.exec, KExp.eval, KEnv.get]
   | none =>
-    simp only [Option.isSome_none, ctruthy, CStmt.execL, CStmt.exec, CExp.eval, callBare]
-    cases hb : bare .sync x <;> simp [CEnv.set, CEnv.get, Store.set]
+    simp only [Option.isSome_none, ktruthy, KStmt.execL, KStmt.exec, KExp.eval, callBare]
+    cases hb : bare .sync x <;> simp [KEnv.set, KEnv.get, Store.set]
 
 /-- **`CacheValidatorBase.validate_async`, as written in the source, is `Cache.step … .async`** -/
 theorem src_cache_async (keq : PyVal → PyVal → Bool) (bare : Mode → PyVal → Out) (s : Store) (x : PyVal) :
     runCache keq bare s Src.cacheAsync x = some (Cache.step keq bare s .async x) := by
-  simp only [runCache, Src.cacheAsync, Cache.step, CStmt.execL, CStmt.exec, CExp.eval, CEnv.set, CEnv.get]
+  simp only [runCache, Src.cacheAsync, Cache.step, KStmt.execL, KStmt.exec, KExp.eval, KEnv.set, KEnv.get]
   cases hg : Store.get keq s x with
-  | some r => simp [ctruthy, CStmt.execL, CStmt.exec, CExp.eval, CEnv.get]
+  | some r => simp [ktruthy, KStmt.execL, KStmt.exec, KExp.eval, KEnv.get]
   | none =>
-    simp only [Option.isSome_none, ctruthy, CStmt.execL, CStmt.exec, CExp.eval, callBare]
-    cases hb : bare .async x <;> simp [CEnv.set, CEnv.get, Store.set]
+    simp only [Option.isSome_none, ktruthy, KStmt.execL, KStmt.exec, KExp.eval, callBare]
+    cases hb : bare .async x <;> simp [KEnv.set, KEnv.get, Store.set]
 
 /-- a history of calls through the translated methods: the store threads through and every call answers what
     `Cache.runHist` answers -/
